@@ -3,6 +3,7 @@ TCP server loop, termination) in a forked child against a simulated device, with
 the environment does; the parent is the client. Events are merged into a ManagerProps trace."""
 import json
 import os
+import zlib
 import random
 import socket
 import types
@@ -40,6 +41,9 @@ def _child(plan, wfd):
         if ev["ev"] == "close" and state["k"] >= 0:
             emit({"k": "repair", "req": state["k"]})
         if ev["ev"] == "open" and state["k"] >= 0:
+            # (a re-opening inside a request is a repair even when nothing was left to close: the previous
+            # request's re-opening had failed)
+            emit({"k": "repair", "req": state["k"]})
             # the exchanges that follow a reconnection inside a request are the repair's bring-up
             # (IS_ONBOARD, GET_MODE, IS_ONBOARD, GET_PARAMETERS), not the command's own
             state["skip"] = 4
@@ -129,9 +133,21 @@ def _child(plan, wfd):
         with open(pin_path, "wb") as f:
             f.write(bringup.GOOD_PIN)
     os.environ["PIN"] = bringup.GOOD_PIN.decode()
-    options = types.SimpleNamespace(logconfigfilepath=os.path.join(os.path.dirname(pin_path), "no-such-logging.cfg"),
+    # configuration of the manager as an environment choice: 0 = no logging configuration file (the built-in
+    # DEBUG-to-stdout one), 1 = a production-like file (WARNING and above to a log file) with -D, 2 = -D alone
+    cfg = plan.get("cfg", 0)
+    logcfg = os.path.join(os.path.dirname(pin_path), "no-such-logging.cfg")
+    if cfg == 1:
+        logcfg = pin_path + ".logging.cfg"
+        with open(logcfg, "w") as f:
+            f.write("[loggers]\nkeys=root\n\n[handlers]\nkeys=file\n\n[formatters]\nkeys=user\n\n"
+                    "[logger_root]\nlevel=WARNING\nhandlers=file\n\n"
+                    "[handler_file]\nclass=FileHandler\nlevel=WARNING\nformatter=user\nargs=(%r,)\n\n"
+                    "[formatter_user]\nformat=%%(asctime)s [%%(levelname)s:%%(name)s] %%(message)s\n"
+                    "class=logging.Formatter\n" % (pin_path + ".log"))
+    options = types.SimpleNamespace(logconfigfilepath=logcfg,
                                     version_one=bool(plan["v1"]), host="127.0.0.1", port=0,
-                                    pin_file=pin_path, force_pin_change=False, io_debug=False)
+                                    pin_file=pin_path, force_pin_change=False, io_debug=cfg in (1, 2))
     emit({"k": "start"})
     options.tcpconn_host, options.tcpconn_port = "127.0.0.1", 7777
     if plat == "ledger":
@@ -302,7 +318,7 @@ def run_lifetime(scratch, tag, should, causes, v1, rng, start_env=None, plat="le
         labels.append(label)
     plan = {"seed": rng.random(), "env": e, "needchg": needchg, "v1": v1, "reqs": steps, "plat": plat,
             "pin_file": None if pin_file is None else pin_file.hex(),
-            "pin_path": os.path.join(scratch, "pin_%s.txt" % tag)}
+            "pin_path": os.path.join(scratch, "pin_%s.txt" % tag), "cfg": zlib.crc32(tag.encode()) % 3}
     r, w = os.pipe()
     pid = os.fork()
     if pid == 0:
@@ -399,5 +415,5 @@ def run_lifetime(scratch, tag, should, causes, v1, rng, start_env=None, plat="le
             full[conn_idx[i]]["cause"] = "unsafe"
         if c == "unsafe":
             pending_unsafe = True
-    return full, {"env": e, "needchg": needchg, "causes": causes, "labels": labels, "v1": v1, "plat": plat,
+    return full, {"env": e, "needchg": needchg, "causes": causes, "labels": labels, "v1": v1, "plat": plat, "cfg": plan["cfg"],
                   "child": [c for c in child_events if c["k"] != "start"][:8]}
